@@ -11,7 +11,7 @@ PLAN = dict(
     assumptions=['the channel contract above (FIFO, exactly-once hand-over, bounded capacity)', 'thread spawn / join and all producer-worker schedules'],
     not_covered=['Drop for WorkerGuard (shutdown ordering): reaching it crashes the Kani compiler (drop-needing std TLS behind eprintln!/join)', 'real crossbeam channel', 'back-pressure timing', "worker_thread's loop (thread::Builder)"],
     kani=[dict(
-        crate="tracing-appender", tls_shim_crates=["tracing-core", "tracing-subscriber"], once_cell_stub=True, prepare="prep",
+        crate="tracing-appender", unmodelled_paths=["crossbeam-channel", "crossbeam_channel"], tls_shim_crates=["tracing-core", "tracing-subscriber"], once_cell_stub=True, prepare="prep",
         modules=[dict(name="__verif_c15w", attach="inline", file="tracing-appender/src/worker.rs", modpath="worker", files=["worker.kani.rs"]),
                  dict(name="__verif_c15n", attach="inline", file="tracing-appender/src/non_blocking.rs", modpath="non_blocking", files=["non_blocking.kani.rs"])],
     )],
